@@ -100,6 +100,9 @@ def parse_run(events, run=0):
         if k == "buf":
             bufs[(e["r"], e["key"])] = e["v"]
             continue
+        if k == "sbuf":
+            bufs[("s", e["r"], e["key"])] = e["v"]
+            continue
         if cur != run:
             continue
         if k == "W":
@@ -473,6 +476,39 @@ def check_windows(sc, log):
                     need = (tw["min"] if tw["min"] > 0 else tw["period"]) if tw["kind"] == "tick" else 1
                     if len(timeline[t][0]) >= need:
                         return ("window_tick_missing", "a push at t=%d into a valid %s window did not tick the consumer (it was evaluated at %s)" % (t, tw["kind"], sorted(seen)[:20])), stats
+    return None, stats
+
+
+def check_sparse_replay(sc, log0, log1):
+    """sparse (absolute-time) record in run 1, replay of that recording in run 2 over a window that may begin later: the replay
+    ticks in exactly the recorded cycles that fall into its window (an entry older than the window is not replayed, at the
+    window's start or ever), and - when the whole recording lies inside the window, or for scalars - with exactly the
+    recorded deltas; the re-recorded buffer equals the recorded one restricted to the window"""
+    stats = dict(recorded_ticks=0, sparse_replays=0, probe_replay_starts_after_first_entry=0, probe_replay_starts_on_an_entry=0, probe_replay_starts_in_a_gap=0)
+    s2, e2 = sc.get("window2") or sc["window"]
+    for pr in sc.get("spairs", []):
+        b1 = log0["bufs"].get(("s", 0, pr["b1"]))
+        b2 = log1["bufs"].get(("s", 1, pr["b2"]))
+        if b1 is None:
+            continue
+        stats["sparse_replays"] += 1
+        stats["recorded_ticks"] += len(b1)
+        inside = [e for e in b1 if s2 <= e[0] < e2]
+        late = bool(b1) and b1[0][0] < s2
+        if late:
+            stats["probe_replay_starts_after_first_entry"] += 1
+            stats["probe_replay_starts_on_an_entry" if any(e[0] == s2 for e in b1) else "probe_replay_starts_in_a_gap"] += 1
+        got = b2 or []
+        if [e[0] for e in got] != [e[0] for e in inside]:
+            return ("sparse_replay_cycles", "%s: recorded at %s, replay window [%d,%d): re-recorded ticks at %s, expected %s" % (
+                pr["b1"], [e[0] for e in b1], s2, e2, [e[0] for e in got], [e[0] for e in inside])), stats
+        seen = sorted(t for (t, ci) in log1["C"].get(pr["cons"], []) if ci is not None)
+        if seen != [e[0] for e in inside]:
+            return ("sparse_replay_cycles", "%s: the consumer of the replay was evaluated at %s; recorded ticks inside the window are at %s" % (pr["b1"], seen, [e[0] for e in inside])), stats
+        if not late or pr["shape"] in ("TS", "TSStr"):
+            for a, b in zip(inside, got):
+                if canon(a[1]) != canon(b[1]):
+                    return ("sparse_replay_delta", "%s: entry at %d recorded %s, the replay produced %s" % (pr["b1"], a[0], json.dumps(a[1]), json.dumps(b[1]))), stats
     return None, stats
 
 
